@@ -101,7 +101,12 @@ Proof. vm_compute. reflexivity. Qed.
    the box a thread touches always exists: *)
 Definition dtor_atomic_step (s : vstate) (t : nat) : vstate :=
   match nth_error (v_pcs s) t with
-  | Some (VHeld _) => vstep (vstep (vstep s (VStep t)) (VStep t)) (VStep t)
+  | Some (VHeld _) =>
+      let s2 := vstep (vstep s (VStep t)) (VStep t) in           (* release(); rc test *)
+      match nth_error (v_pcs s2) t with
+      | Some (VDtorPush _) => vstep s2 (VStep t)                  (* rc was 0: LRU push *)
+      | _ => s2
+      end
   | Some (VDtorRead _) | Some (VDtorPush _) => s
   | _ => vstep s (VStep t)
   end.
@@ -165,7 +170,7 @@ Proof.
   - (* a borrower's step *)
     unfold dtor_atomic_step. destruct (nth_error (v_pcs s) t) as [p|] eqn:Ht; [|simpl; rewrite Ht; repeat split; auto].
     assert (Dp : no_dtor_pc p = true). { rewrite forallb_forall in D. apply D. eapply nth_in; eauto. }
-    destruct p; try discriminate Dp; simpl; rewrite Ht.
+    destruct p; try discriminate Dp; [simpl; rewrite Ht | simpl; rewrite Ht | simpl; rewrite Ht | ].
     + (* VIdle: __find_or_create_box *)
       destruct (v_box s) as [b|] eqn:Eb.
       * destruct B as [R [G P]]. split; [exact U|]. split; [apply forallb_vupd; auto|]. simpl. split; [|split; auto].
@@ -191,20 +196,28 @@ Proof.
       * rewrite (vsum_upd _ _ _ _ _ Ht). simpl. rewrite Nat.eqb_refl. lia.
       * intros p Hp. apply in_vupd in Hp. destruct Hp as [->|Hp]; [reflexivity|]. apply P; auto.
     + (* VHeld: the whole of ~Borrow *)
+      change (VInv (let s2 := vstep (vstep s (VStep t)) (VStep t) in match nth_error (v_pcs s2) t with Some (VDtorPush _) => vstep s2 (VStep t) | _ => s2 end)).
       destruct (v_box s) as [b|] eqn:Eb; [|specialize (B _ (nth_in _ _ _ Ht)); discriminate].
       destruct B as [R [G P]]. pose proof (P _ (nth_in _ _ _ Ht)) as Pg. simpl in Pg. subst g.
       assert (NT : forall x, nth_error (vupd (v_pcs s) t x) t = Some x).
       { intros x. clear -Ht. revert t Ht. induction (v_pcs s); destruct t; simpl; intros; try discriminate; auto. }
       assert (UU : forall x y, vupd (vupd (v_pcs s) t x) t y = vupd (v_pcs s) t y).
       { intros x y. clear. revert t. induction (v_pcs s); destruct t; simpl; auto. f_equal; auto. }
-      unfold vstep at 3. rewrite Ht. unfold touch at 1. rewrite Eb, Nat.eqb_refl.
-      unfold vstep at 2. unfold setb at 1. cbn [v_pcs v_box]. rewrite NT. unfold touch at 1. cbn [v_box b_gen]. rewrite Nat.eqb_refl.
-      cbn [b_rc]. destruct (b_rc b - 1 =? 0) eqn:Ez.
-      * unfold setb at 1. unfold vstep. cbn [v_pcs]. rewrite UU, NT. unfold touch. cbn [v_box b_gen]. rewrite Nat.eqb_refl.
-        unfold setb. cbn. rewrite !UU. split; [exact U|]. split; [apply forallb_vupd; auto|]. split; [|split; auto].
+      assert (E1 : vstep s (VStep t) = setb s (mkBox (b_gen b) (b_rc b - 1) (v_now s) (b_lru b)) (vupd (v_pcs s) t (VDtorRead (b_gen b)))).
+      { simpl. rewrite Ht. unfold touch. rewrite Eb, Nat.eqb_refl. reflexivity. }
+      rewrite E1.
+      set (b1 := mkBox (b_gen b) (b_rc b - 1) (v_now s) (b_lru b)).
+      assert (E2 : vstep (setb s b1 (vupd (v_pcs s) t (VDtorRead (b_gen b)))) (VStep t) =
+                   setb s b1 (vupd (v_pcs s) t (if b_rc b - 1 =? 0 then VDtorPush (b_gen b) else VIdle))).
+      { simpl. rewrite NT. unfold touch. simpl. rewrite Nat.eqb_refl. unfold setb. simpl. rewrite UU. reflexivity. }
+      rewrite E2. cbv zeta. unfold setb at 1. cbn [v_pcs]. rewrite NT. destruct (b_rc b - 1 =? 0) eqn:Ez.
+      * assert (E3 : vstep (setb s b1 (vupd (v_pcs s) t (VDtorPush (b_gen b)))) (VStep t) =
+                     setb s (mkBox (b_gen b) (b_rc b - 1) (v_now s) true) (vupd (v_pcs s) t VIdle)).
+        { simpl. rewrite NT. unfold touch. simpl. rewrite Nat.eqb_refl. unfold setb. simpl. rewrite UU. reflexivity. }
+        rewrite E3. split; [exact U|]. split; [apply forallb_vupd; auto|]. simpl. split; [|split; auto].
         -- rewrite (vsum_upd _ _ _ _ _ Ht). simpl. rewrite Nat.eqb_refl. lia.
         -- intros p Hp. apply in_vupd in Hp. destruct Hp as [->|Hp]; [exact Logic.I|]. apply P; auto.
-      * unfold setb. cbn. rewrite !UU. split; [exact U|]. split; [apply forallb_vupd; auto|]. split; [|split; auto].
+      * split; [exact U|]. split; [apply forallb_vupd; auto|]. simpl. split; [|split; auto].
         -- rewrite (vsum_upd _ _ _ _ _ Ht). simpl. rewrite Nat.eqb_refl. lia.
         -- intros p Hp. apply in_vupd in Hp. destruct Hp as [->|Hp]; [exact Logic.I|]. apply P; auto.
   - (* the reclaimer *)
